@@ -11,6 +11,7 @@ MONITORS = {
     "C07": ["monitors.c07"],
     "C08": ["monitors.c08"],
     "C09": ["monitors.c09"],
+    "C10": ["monitors.c10"],
     "C11": ["monitors.c11"],
     "C12": ["monitors.c12"],
 }
